@@ -648,7 +648,8 @@ package secp256k1
 //@   ct
 //@   props C16 C18
 //@   timeout 60
-//@   bounded len(scalars) <= 3: list lengths 0..3 are verified (all scalars and valid points; list entries distinct objects, the receiver may be one of the points); longer lists are not covered by this contract
+//@   bounded len(scalars) <= 3: list lengths 0..3 are verified (all scalars and valid points; list entries distinct objects, the receiver may be one of the points); lengths 4..8 only by the bounded execution msm_lengths; longer lists are not covered
+//@   boundedcheck msm_lengths@C16
 //@   requires len(scalars) <= 3 && len(points) <= 3
 //@   split len(scalars) in 0..3
 //@   split len(points) in 0..3
@@ -668,7 +669,8 @@ package secp256k1
 //@ func (*Point).MultiScalarMultVartime
 //@   props C16 C18
 //@   timeout 60
-//@   bounded len(scalars) <= 3: list lengths 0..3 are verified (all scalars and valid points; list entries distinct objects, the receiver may be one of the points); longer lists are not covered by this contract
+//@   bounded len(scalars) <= 3: list lengths 0..3 are verified (all scalars and valid points; list entries distinct objects, the receiver may be one of the points); lengths 4..8 only by the bounded execution msm_lengths; longer lists are not covered
+//@   boundedcheck msm_lengths@C16
 //@   requires len(scalars) <= 3 && len(points) <= 3
 //@   split len(scalars) in 0..3
 //@   split len(points) in 0..3
@@ -688,9 +690,9 @@ package secp256k1
 //@ func (*Point).SetUniformBytes
 //@   props C15 C18
 //@   option field
-//@   split len(src) in 48..48
-//@   bounded len(src) == 48: the only length the two suites pass (the function accepts 32..64)
-//@   requires len(src) == 48
+//@   split len(src) in 32..64 else step 8/1
+//@   bounded len(src) in {32, 40, 48, 56, 64} in the quick tier (48 is the length both suites pass); every length 32..64 in the thorough tier; other lengths panic (proved in both tiers)
+//@   panics len(src) < 32 || len(src) > 64
 //@   apply sy@yP: swu_y_def(val(u))
 //@   apply ac@y: aff_coords(val(x), val(y))
 //@   ensures v.isValid && result == v && abs(v) == h2c_map(fp(os2ip(src)))
